@@ -75,6 +75,44 @@ func Corrupt(c *simkit.Choices, doc *model.Doc, n int, st *simkit.Stats) ([]byte
 				}
 			}
 		}
+		if (doc.Format == string(model.CBOR) || doc.Format == string(model.UBJSON)) && c.N(5) == 0 {
+			// length bomb: a length/count/head token is replaced by a 64-bit
+			// length that the input does not back with data
+			var lens []model.Token
+			for _, t := range doc.Tokens {
+				if (t.Kind == "len" || t.Kind == "head") && t.E <= len(b) {
+					lens = append(lens, t)
+				}
+			}
+			if len(lens) > 0 {
+				t := lens[c.N(len(lens))]
+				big := bigLengths[c.N(len(bigLengths))]
+				var hdr []byte
+				if doc.Format == string(model.CBOR) {
+					hdr = []byte{b[t.S]&0xe0 | 27, 0, 0, 0, 0, 0, 0, 0, 0}
+				} else {
+					hdr = []byte{'L', 0, 0, 0, 0, 0, 0, 0, 0}
+				}
+				for i := 0; i < 8; i++ {
+					hdr[1+i] = byte(big >> (56 - 8*uint(i)))
+				}
+				if c.N(4) == 0 { // 32-bit variant
+					if doc.Format == string(model.CBOR) {
+						hdr = []byte{b[t.S]&0xe0 | 26, 0x7f, 0xff, 0xff, 0xff}
+					} else {
+						hdr = []byte{'l', 0x7f, 0xff, 0xff, 0xff}
+					}
+				}
+				nb := append([]byte{}, b[:t.S]...)
+				nb = append(nb, hdr...)
+				nb = append(nb, b[t.E:]...)
+				b = nb
+				f.Kind, f.Pos = "length-bomb", t.S
+				st.Fault("corrupt-" + f.Kind)
+				faults = append(faults, f)
+				continue
+			}
+		}
 		switch c.N(8) {
 		case 0:
 			f.Kind, f.Arg = "bitflip", c.N(8)
@@ -127,3 +165,65 @@ func HasPayloadlessTyped(b []byte) bool {
 
 var jsonSnippets = []string{`\`, `\u`, `\u1`, `\u12`, `\u123`, `\ud800`, `\ud800\`, `\ud800\u`, `\ud800\u1`, `\ud800\ud`, `\ud800\udc0`,
 	`\udc00\u12`, `\uD83D\uDE0`, `\ud83d\ude00`, `\x`, `\'`, `\u00zz`, `\ud800\u0041`, "\x80", "\xff\xfe", "\xc3", "\xe4\xb8", "\xf0\x9f\x98", "\n", "\x00", `\u0000`}
+
+var bigLengths = []uint64{1 << 31, 1<<31 - 1, 1 << 32, 1<<32 - 1, 1 << 40, 1<<63 - 1, 1 << 63, 1<<64 - 1, 1 << 62, 1 << 20, 1 << 16}
+
+// NestBomb builds an input of n nested container openings (optionally closed).
+func NestBomb(c *simkit.Choices, f model.Format) []byte {
+	n := []int{31, 32, 33, 63, 64, 65, 100, 1000, 5000}[c.N(9)]
+	var open, close []byte
+	switch f {
+	case model.JSON:
+		if c.Bool() {
+			open, close = []byte("["), []byte("]")
+		} else {
+			open, close = []byte(`{"a":`), []byte("}")
+		}
+	case model.CBOR:
+		switch c.N(4) {
+		case 0:
+			open = []byte{0x81}
+		case 1:
+			open, close = []byte{0x9f}, []byte{0xff}
+		case 2:
+			open = []byte{0xa1, 0x61, 'a'}
+		default:
+			open, close = []byte{0xbf, 0x61, 'a'}, []byte{0xff}
+		}
+	default:
+		switch c.N(4) {
+		case 0:
+			open, close = []byte("["), []byte("]")
+		case 1:
+			open = []byte("[#i\x01")
+		case 2:
+			open, close = []byte("{i\x01a"), []byte("}")
+		default:
+			open = []byte("[$[#i\x01")
+		}
+	}
+	var b []byte
+	for i := 0; i < n; i++ {
+		b = append(b, open...)
+	}
+	switch f {
+	case model.JSON:
+		b = append(b, '1')
+	case model.CBOR:
+		b = append(b, 0x01)
+	default:
+		if string(open) != "[$[#i\x01" {
+			b = append(b, 'Z')
+		} else {
+			b = append(b, ']')
+		}
+	}
+	closers := n
+	if c.N(3) == 0 {
+		closers = c.N(n + 2) // unbalanced
+	}
+	for i := 0; i < closers && len(close) > 0; i++ {
+		b = append(b, close...)
+	}
+	return b
+}
